@@ -1,5 +1,5 @@
 (** Compositions used by Props/Properties_C05.v and Properties_C17.v, and the witnesses
-    for what is false in the unchanged code (D14: zero-length range-index entries). *)
+    for what is false without the hypothesis [nz_ridx] (D14: zero-length range-index entries). *)
 From ZV Require Import Base.Bytes Dl.DlWrite Dl.Multipart Dl.FileLemmas Dl.DlProofs Dl.MpStream
   Dl.MpSafe Dl.DlInv Dl.DlPlace.
 Local Open Scope N_scope.
@@ -48,7 +48,8 @@ Proof.
     apply concat_nonnil; assumption.
 Qed.
 
-(** * D14: a zero-length entry in the range index makes the result depend on the fragmentation *)
+(** * D14 (documentation): a zero-length entry in the range index makes the result depend on the
+    fragmentation.  zck_get_missing_range no longer creates such entries (it skips zero-length chunks). *)
 Module D14.
 Definition toyH (bs : bytes) : bytes := [N.of_nat (length bs); fold_left N.add bs 0 mod 256].
 Definition dA : bytes := [1; 2].
